@@ -113,6 +113,20 @@ pub fn run(ctx: &mut Ctx) {
                 }
             }
         }
+        // every fourth pack ends with a few empty contents in a cluster of their own (the open cluster of
+        // the other kind holds nothing else at finalize)
+        if case % 4 == 3 {
+            let last = items.last().map(|i| i.hint).unwrap_or(Hint::Yes);
+            let other = if last == Hint::Yes { Hint::No } else { Hint::Yes };
+            // close the current cluster of that kind first: 4095 tiny contents of the other kind …
+            for _ in 0..4095 {
+                items.push(CItem { data: crng.low_entropy(1), hint: other, src: Src::Mem });
+            }
+            // … then only empty ones
+            for _ in 0..(1 + crng.below(3)) {
+                items.push(CItem { data: vec![], hint: other, src: Src::Mem });
+            }
+        }
         let spec = PackSpec { comp, items, dedup: false, packaging: None, label: format!("pipeline-w{}-c{}", workers, want_clusters) };
         let perturb = Arc::new(Perturb { rng: Mutex::new(crng.fork(77)), events: Mutex::new(vec![]), max_us: if ctx.quick() { 1500 } else { 4000 } });
         set_cpus(cpus);
